@@ -10,10 +10,17 @@
 import Gama.Proto
 import Gama.Model.NetState
 import Gama.Lemmas.NetState
+import Gama.Lemmas.NetStateSolver
 open Gama Gama.Proto Gama.C04.Net Gama.C04.Net.Gen
 
+/-- round 4: the machine run is `MState` (Model/NetState.lean): the cascade plus the solver object's regularisation
+    list; `set_algorithm` is `MOp.setAlgorithm` (new solver object with the default list + `update(Points)`).  The list
+    content is taken as independent of the configuration (`lst` constant): the most demanding instance — a hand-over
+    "only when the list changed" is then reported as `stale solver-list` after `set_algorithm`. -/
 structure St where
-  st : Option NState := none
+  st : Option MState := none
+
+def minp (throws : Bool) : MInput := { net := { throws := throws }, lst := fun _ => 0 }
 
 def b01 (x : Bool) : String := if x then "1" else "0"
 
@@ -32,6 +39,8 @@ def rowOf : String → Option String
   | "degrees_of_freedom" => some "degrees_of_freedom" | "unknowns_count" => some "unknowns_count"
   | "observations_count" => some "observations_count#2" | "points_count" => some "points_count"
   | "huge_abs_terms" => some "huge_abs_terms" | "null_space" => some "null_space"
+  -- composite harness ops of the free-network oracle: `solve()` first, then standard deviations / ellipses / sums
+  | "adjusted_stdevs" => some "solve" | "adjusted_ellipses" => some "solve" | "inner_constraints" => some "solve"
   | "m_0_aposteriori_value" => some "m_0_aposteriori_value"
   | "revision_points" => some "revision_points" | "revision_observations" => some "revision_observations"
   | "project_equations" => some "project_equations"
@@ -40,10 +49,18 @@ def rowOf : String → Option String
   | "is_adjusted" => some "is_adjusted"
   | _ => none
 
-def call (s : NState) (row : String) (throws : Bool := false) : NState × String :=
+def call (s : MState) (row : String) (throws : Bool := false) : MState × String :=
   match member? row with
-  | some m => let r := nstep (inpOf throws) s (.call m); (r.1, showOut r.1.cfg r.2)
+  | some m =>
+    let r := mstep (minp throws) s (.net (.call m))
+    let lists := match r.2.2 with
+      | some l => if l = curList (minp throws) s.net then "" else " solver-list"
+      | none => ""
+    let o := showOut r.1.net.cfg r.2.1
+    (r.1, if lists == "" then o else (if o == "sound" then "stale" else o) ++ lists)
   | none => (s, "bad-op")
+
+def chg (s : MState) (l : Nat) : MState := (mstep (minp false) s (.net (.change l))).1
 
 def inp : NInput := inpOf false
 
@@ -51,17 +68,17 @@ def step' (σ : St) (line : String) : St × String :=
   let ts := tokens line
   match ts with
   | [] => (σ, "")
-  | ["load", _] => ({ st := some (ninit ⟨0, 0, 0, 0⟩) }, "ok")
+  | ["load", _] => ({ st := some (minit ⟨0, 0, 0, 0⟩) }, "ok")
   | _ =>
   match σ.st with
   | none => (σ, "bad-op")
   | some s =>
   match ts with
-  | ["flags"] => (σ, s!"fl {b01 s.f0} {b01 s.f1} {b01 s.f2} {b01 s.f3}")
+  | ["flags"] => (σ, s!"fl {b01 s.net.f0} {b01 s.net.f1} {b01 s.net.f2} {b01 s.net.f3}")
   | "fresh" :: _ => (σ, "-")
-  | "chg_obs" :: _ => ({ st := some (nstep inp s (.change 1)).1 }, "ok")
-  | "chg_xyz" :: _ => ({ st := some (nstep inp s (.change 2)).1 }, "ok")
-  | ["set_algorithm", _] => ({ st := some (nstep inp s (.change 0)).1 }, "ok")
+  | "chg_obs" :: _ => ({ st := some (chg s 1) }, "ok")
+  | "chg_xyz" :: _ => ({ st := some (chg s 2) }, "ok")
+  | ["set_algorithm", _] => ({ st := some (mstep (minp false) s .setAlgorithm).1 }, "ok")
   | [_, "!local"] =>          -- vyrovnani_ threw its own exception (no unknowns / observations / points) after
     let r := call s "project_equations"      -- project_equations(), before the flag is set
     ({ st := some r.1 }, "throw")
@@ -73,11 +90,11 @@ def step' (σ : St) (line : String) : St × String :=
     ({ st := some r.1 }, r.2)
   | ["refine"] =>
     let r := call s "refine_approx_coordinates"
-    ({ st := some (nstep inp r.1 (.change 2)).1 }, "ok")
+    ({ st := some (chg r.1 2) }, "ok")
   | ["remove_huge", h] =>
     if h == "1" then
       let r := call s "remove_huge_abs_terms"
-      ({ st := some (nstep inp r.1 (.change 1)).1 }, "huge 1")
+      ({ st := some (chg r.1 1) }, "huge 1")
     else
       let r := call s "huge_abs_terms"
       ({ st := some r.1 }, "huge 0")
